@@ -11,7 +11,8 @@ TYPES12 = [ag.INT, ag.BOOL, ag.BYTES, ag.VOID, ag.DATA, ag.TList(ag.INT), ag.TOp
            ag.TAdt("Box", ag.TOption(ag.BOOL)), ag.TAdt("Either", ag.TAdt("Point"), ag.TList(ag.BOOL)), ag.TList(ag.TOption(ag.INT)),
            ag.TPair(ag.TAdt("Color"), ag.TList(ag.INT)), ag.TList(ag.TPair(ag.BYTES, ag.TAdt("Shape"))),
            ag.TAdt("Tagged"), ag.TAdt("Wrap", ag.INT), ag.TAdt("Wrap", ag.BYTES), ag.TOption(ag.TAdt("Tagged")), ag.TAdt("Inner", ag.TAdt("Color")),
-           ag.TAdt("Rec5"), ag.TList(ag.TAdt("Rec5")), ag.TAdt("RecL"), ag.TList(ag.TAdt("RecL")), ag.TOption(ag.TAdt("RecL"))]
+           ag.TAdt("Rec5"), ag.TList(ag.TAdt("Rec5")), ag.TAdt("RecL"), ag.TList(ag.TAdt("RecL")), ag.TOption(ag.TAdt("RecL")),
+           ag.TAdt("Named"), ag.TList(ag.STRING), ag.TTuple(ag.STRING, ag.INT), ag.TOption(ag.STRING)]
 
 
 def norm_schema(s):
@@ -32,6 +33,8 @@ def norm_schema(s):
         return {"s": "int"}
     if dt == "bytes":
         return {"s": "bytes"}
+    if dt == "#string":
+        return {"s": "string"}
     if dt == "list":
         it = s.get("items")
         if isinstance(it, list):
@@ -191,7 +194,9 @@ def c12(tier):
     rc = rep.finish()
     vlib.write_evidence("C12", tier, "model_checking", cov,
                         ["python normalises the blueprint JSON into the spec's schema vocabulary (titles / descriptions dropped)",
-                         "definite vs indefinite CBOR encodings of the same Data are not distinguished here"], time.time() - t0, len(rep.violations))
+                         "definite vs indefinite CBOR encodings of the same Data are not distinguished here",
+                         "String fields: only ASCII text is generated (text is published as `bytes`; byte strings that are not valid UTF-8 are outside the universes)"],
+                        time.time() - t0, len(rep.violations))
     return rc
 
 
